@@ -175,6 +175,45 @@ func (fm *fileModel) skip(format string, a ...any) {
 	}
 }
 
+// orderDetermined: sort.Sort uses insertion sort (the model's isort) up to 12 elements; above that pdqsort, whose
+// result the model only predicts when sourceElements.Less is a strict total order on the body: all elements
+// located on pairwise different lines, or none located and (typeOrder, index) pairwise different.
+func (fm *fileModel) orderDetermined(what string, ds []protoreflect.Descriptor) {
+	if len(ds) <= 12 {
+		return
+	}
+	lines := map[int]bool{}
+	keys := map[[2]int]bool{}
+	zero, nonzero := 0, 0
+	for _, d := range ds {
+		l := d.ParentFile().SourceLocations().ByDescriptor(d).StartLine
+		to := 0
+		switch d.(type) {
+		case protoreflect.MessageDescriptor:
+			to = 1
+		case protoreflect.EnumDescriptor:
+			to = 2
+		}
+		if l == 0 {
+			zero++
+			k := [2]int{to, d.Index()}
+			if keys[k] {
+				fm.skip("element order of %s: more than 12 elements with tied sort keys (pdqsort)", what)
+			}
+			keys[k] = true
+		} else {
+			nonzero++
+			if lines[l] {
+				fm.skip("element order of %s: more than 12 elements, two on one line (pdqsort)", what)
+			}
+			lines[l] = true
+		}
+	}
+	if zero > 0 && nonzero > 0 {
+		fm.skip("element order of %s: more than 12 elements, located and unlocated mixed (Less is not transitive; pdqsort)", what)
+	}
+}
+
 func keyTerm(d protoreflect.Descriptor) string {
 	loc := d.ParentFile().SourceLocations().ByDescriptor(d)
 	return fmt.Sprintf("{| k_line := %d; k_idx := %d |}", loc.StartLine, d.Index())
@@ -264,6 +303,11 @@ func (fm *fileModel) enumTerm(e protoreflect.EnumDescriptor) string {
 		fm.skip("reserved in enum %s", e.FullName())
 	}
 	vs := make([]string, e.Values().Len())
+	var evs []protoreflect.Descriptor
+	for i := 0; i < e.Values().Len(); i++ {
+		evs = append(evs, e.Values().Get(i))
+	}
+	fm.orderDetermined(string(e.FullName()), evs)
 	for i := range vs {
 		v := e.Values().Get(i)
 		vs[i] = fmt.Sprintf("{| v_key := %s; v_cm := %s; v_name := %s; v_num := %s; v_opts := %s |}",
@@ -277,11 +321,13 @@ func (fm *fileModel) msgTerm(m protoreflect.MessageDescriptor) string {
 		fm.skip("reserved / extension ranges / nested extensions in %s", m.FullName())
 	}
 	var body []string
+	var els []protoreflect.Descriptor
 	for i := 0; i < m.Fields().Len(); i++ {
 		f := m.Fields().Get(i)
 		if o := f.ContainingOneof(); o != nil && !o.IsSynthetic() {
 			continue
 		}
+		els = append(els, f)
 		body = append(body, "DField "+fm.fieldTerm(f))
 	}
 	for i := 0; i < m.Oneofs().Len(); i++ {
@@ -290,9 +336,13 @@ func (fm *fileModel) msgTerm(m protoreflect.MessageDescriptor) string {
 			continue
 		}
 		fs := make([]string, o.Fields().Len())
+		var ofs []protoreflect.Descriptor
 		for k := range fs {
 			fs[k] = fm.fieldTerm(o.Fields().Get(k))
+			ofs = append(ofs, o.Fields().Get(k))
 		}
+		fm.orderDetermined(string(o.FullName()), ofs)
+		els = append(els, o)
 		body = append(body, fmt.Sprintf("DOneof %s %s %s %s [%s]", keyTerm(o), cmtTerm(o), vh.BytesTerm(string(o.Name())), fm.optsTerm(o), strings.Join(fs, ";")))
 	}
 	for i := 0; i < m.Messages().Len(); i++ {
@@ -300,11 +350,14 @@ func (fm *fileModel) msgTerm(m protoreflect.MessageDescriptor) string {
 		if n.IsMapEntry() {
 			continue
 		}
+		els = append(els, n)
 		body = append(body, strings.TrimSuffix(strings.TrimPrefix(fm.msgTerm(n), "("), ")"))
 	}
 	for i := 0; i < m.Enums().Len(); i++ {
+		els = append(els, m.Enums().Get(i))
 		body = append(body, strings.TrimSuffix(strings.TrimPrefix(fm.enumTerm(m.Enums().Get(i)), "("), ")"))
 	}
+	fm.orderDetermined(string(m.FullName()), els)
 	return fmt.Sprintf("(DMsg %s %s %s %s [%s])", keyTerm(m), cmtTerm(m), vh.BytesTerm(string(m.Name())), fm.optsTerm(m), strings.Join(body, ";"))
 }
 
@@ -315,6 +368,11 @@ func refTerm(d protoreflect.Descriptor) string {
 
 func (fm *fileModel) serviceTerm(s protoreflect.ServiceDescriptor) string {
 	ms := make([]string, s.Methods().Len())
+	var mds []protoreflect.Descriptor
+	for i := 0; i < s.Methods().Len(); i++ {
+		mds = append(mds, s.Methods().Get(i))
+	}
+	fm.orderDetermined(string(s.FullName()), mds)
 	for i := range ms {
 		m := s.Methods().Get(i)
 		if m.IsStreamingClient() || m.IsStreamingServer() {
@@ -375,15 +433,20 @@ func dfileTerm(fd protoreflect.FileDescriptor) (term string, unsupported string)
 		exts[i] = fmt.Sprintf("(%s, %s)", qnameTerm(string(x.ContainingMessage().FullName())), fm.fieldTerm(x))
 	}
 	var body []string
+	var tops []protoreflect.Descriptor
 	for i := 0; i < fd.Messages().Len(); i++ {
+		tops = append(tops, fd.Messages().Get(i))
 		body = append(body, strings.TrimSuffix(strings.TrimPrefix(fm.msgTerm(fd.Messages().Get(i)), "("), ")"))
 	}
 	for i := 0; i < fd.Services().Len(); i++ {
+		tops = append(tops, fd.Services().Get(i))
 		body = append(body, strings.TrimSuffix(strings.TrimPrefix(fm.serviceTerm(fd.Services().Get(i)), "("), ")"))
 	}
 	for i := 0; i < fd.Enums().Len(); i++ {
+		tops = append(tops, fd.Enums().Get(i))
 		body = append(body, strings.TrimSuffix(strings.TrimPrefix(fm.enumTerm(fd.Enums().Get(i)), "("), ")"))
 	}
+	fm.orderDetermined("the file", tops)
 	term = fmt.Sprintf("{| d_pkg := %s; d_imports := [%s]; d_fopts := [%s]; d_exts := [%s]; d_body := [%s] |}",
 		qnameTerm(string(fd.Package())), strings.Join(imports, ";"), strings.Join(fopts, ";"), strings.Join(exts, ";"), strings.Join(body, ";"))
 	return term, fm.unsupported
